@@ -106,7 +106,10 @@ def scenarios(tier, seed):
             out.append(dict(family="forward", mode="sample", sampler="forward", net=net, size=1, states=style, partial=nodes[0], hashseed=0))
             out.append(dict(family="forward", mode="sample", sampler="forward", net=net, size=2, states=style, partial=nodes[1], partial_index=[5, 0], hashseed=1,
                             budget_s=80, max_paths=1500))
-            for ev in ([(nodes[-1], 0)], [(nodes[0], 1)], [(nodes[1], 0), (nodes[-1], 1)]):
+            # evidence on a whole family (a node and ALL of its >=2 parents, parent states not a palindrome): the weight is a single table entry whose
+            # column index depends on the parent order
+            full_family = {"coll": [[("A", 1), ("B", 0), ("C", 1)]], "fork4": [[("C", 1), ("B", 0), ("D", 0)], [("B", 1), ("C", 0), ("D", 1), ("A", 0)]]}.get(net, [])
+            for ev in [[(nodes[-1], 0)], [(nodes[0], 1)], [(nodes[1], 0), (nodes[-1], 1)]] + full_family:
                 out.append(dict(family="lw", mode="sample", sampler="lw", net=net, size=1, states=style, ev=[list(e) for e in ev], hashseed=0, budget_s=80, max_paths=400))
                 out.append(dict(family="rejection", mode="sample", sampler="rejection", net=net, size=1, states=style, ev=[list(e) for e in ev], hashseed=1,
                                 budget_s=80, max_paths=400))
